@@ -128,17 +128,22 @@ def add_tc(apid: IntRange(0, 2047), count: IntRange(0, 16383), j: U32):
                                                         M + "PusVerificator._handle_step_failure",
                                                         M + "PusVerificator._check_all_replies_recvd_after_step"])
 def add_tm(apid: IntRange(0, 2047), count: IntRange(0, 16383), sub: Choice(1, 2, 3, 4, 5, 6, 7, 8), step: IntRange(0, 255), j: U32):
-    v = arbitrary_tracker()
+    add_tm_clauses(arbitrary_tracker(), apid, count, sub, step, j)
+
+
+def add_tm_clauses(v, apid, count, sub, step, j):
+    """one report fed to tracker `v`, judged against what `v.verif_dict` holds immediately before"""
     tc = tc_with(apid, count)
     k = RequestId.from_pus_tc(tc)
     tm = report_for(sub, tc, step)
     known = k in v.verif_dict
     entry = v.verif_dict.get(k)
     old = snapshot(entry)
-    other = mk_req_id(j)
-    requires(j != k.as_u32())      # another telecommand: its 32 request-ID bits differ (not stated through __eq__, which is itself under test)
-    before_j = v.verif_dict.get(other)
-    before_j_view = snapshot(before_j)
+    if j is not None:
+        other = mk_req_id(j)
+        requires(j != k.as_u32())      # another telecommand: its 32 request-ID bits differ (not stated through __eq__, which is itself under test)
+        before_j = v.verif_dict.get(other)
+        before_j_view = snapshot(before_j)
     r = v.add_tm(tm)
     if not known:
         ensures("unknown-no-result", r is None)
@@ -150,7 +155,56 @@ def add_tm(apid: IntRange(0, 2047), count: IntRange(0, 16383), sub: Choice(1, 2,
         ensures("completed-flag", r.completed == either(sub == 2, sub == 4, sub == 6, sub == 7, sub == 8))
         ensures("all-recvd-never-reverts", implies(old.all_verifs_recvd, entry.all_verifs_recvd))
         ensures("failed-step-sticks", implies(old.step == FAILURE, entry.step == FAILURE))
-    ensures("others-untouched", both(is_same(v.verif_dict.get(other), before_j), same_state(before_j, before_j_view)))
+    if j is not None:
+        ensures("others-untouched", both(is_same(v.verif_dict.get(other), before_j), same_state(before_j, before_j_view)))
+
+
+def warm_up(v, op1, apid1, count1, sub1):
+    """any one earlier operation on the tracker (the harnesses above start from an arbitrary DICTIONARY; state a change might
+    keep elsewhere - a look-up cache, a set of finished IDs - only exists after an operation has run)"""
+    tc1 = tc_with(apid1, count1)
+    if op1 == 0:
+        v.add_tm(report_for(sub1, tc1, 1))
+    elif op1 == 1:
+        v.remove_entry(RequestId.from_pus_tc(tc1))
+    elif op1 == 2:
+        v.remove_completed_entries()
+    elif op1 == 3:
+        v.add_tm(report_for(sub1, tc1, 1))
+        v.remove_completed_entries()
+    else:
+        v.add_tc(tc1)
+
+
+@obligation(["C16"], "PusVerificator/two-operations/add_tm", verifies=[M + "PusVerificator.add_tm", M + "PusVerificator.remove_entry",
+                                                                      M + "PusVerificator.remove_completed_entries", M + "PusVerificator.add_tc"])
+def second_add_tm(op1: Choice(0, 1, 2, 3), apid1: IntRange(0, 2047), count1: IntRange(0, 16383),
+                  apid: IntRange(0, 2047), count: IntRange(0, 16383), sub: Choice(1, 2, 3, 4, 5, 6, 7, 8), step: IntRange(0, 255)):
+    """a report after ANY earlier operation (for the same or another telecommand) is judged by the dictionary alone"""
+    v = arbitrary_tracker()
+    warm_up(v, op1, apid1, count1, 2)
+    add_tm_clauses(v, apid, count, sub, step, None)
+
+
+@obligation(["C16"], "PusVerificator/two-operations/add_tc-remove", verifies=[M + "PusVerificator.add_tm", M + "PusVerificator.remove_entry",
+                                                                             M + "PusVerificator.remove_completed_entries", M + "PusVerificator.add_tc"])
+def second_add_tc_remove(op1: Choice(0, 1, 2, 3, 4), apid1: IntRange(0, 2047), count1: IntRange(0, 16383), sub1: Choice(2, 7),
+                         apid: IntRange(0, 2047), count: IntRange(0, 16383)):
+    """registering / removing a telecommand after ANY earlier operation answers by the dictionary alone"""
+    v = arbitrary_tracker()
+    warm_up(v, op1, apid1, count1, sub1)
+    tc = tc_with(apid, count)
+    k = RequestId.from_pus_tc(tc)
+    was_known = k in v.verif_dict
+    ensures("duplicate-refused", v.add_tc(tc) == (not was_known))
+    now = v.verif_dict.get(k)
+    ensures("registered", now is not None)
+    if not was_known:
+        ensures("fresh-entry-initial", both(now.all_verifs_recvd == False, now.accepted == UNSET, now.started == UNSET,
+                                            now.step == UNSET, now.step_list == [], now.completed == UNSET))
+    ensures("remove-answers-true", v.remove_entry(k) == True)
+    ensures("gone", not (k in v.verif_dict))
+    ensures("report-for-removed-yields-nothing", v.add_tm(report_for(1, tc, 0)) is None)
 
 
 @obligation(["C16"], "PusVerificator.add_tm/invalid-subservice", verifies=[M + "PusVerificator.add_tm"])
